@@ -293,3 +293,138 @@ theorem print_no_nl (e : ExtentSpec) (h : wfExtent e = true) : '\n' ∉ printExt
   exact ⟨hA, by decide, hD _, by decide, hT, hP1, hP2, noNl_tok _ hu, noNl_tok _ hd⟩
 
 end Hv.VmdkDesc
+
+namespace Hv.VmdkDesc
+open Hv Hv.Regex
+
+/-! ### the settings dictionaries of `DiskDescriptor.parse`: the last assignment of a key wins -/
+
+theorem dictGet_nil (k : Str) : dictGet [] k = none := rfl
+theorem dictGet_cons (e : Str × Str) (es : List (Str × Str)) (k : Str) :
+    dictGet (e :: es) k = if e.1 = k then some e.2 else dictGet es k := by
+  unfold dictGet
+  by_cases h : e.1 = k <;> simp [h]
+
+theorem dictGet_map_set (d : List (Str × Str)) (k v k' : Str) :
+    dictGet (d.map (fun e => if e.1 = k then (k, v) else e)) k' =
+      if k' = k then (if d.any (·.1 = k) then some v else none) else dictGet d k' := by
+  induction d with
+  | nil => simp [dictGet_nil]
+  | cons e es ih =>
+    rw [List.map_cons, dictGet_cons, ih, dictGet_cons]
+    by_cases hk : k' = k
+    · subst hk
+      by_cases he : e.1 = k'
+      · simp [he, List.any_cons]
+      · simp only [he, if_false, if_true, List.any_cons]
+        have hF : ∀ (inst : Decidable False), @decide False inst = false := by
+          intro inst
+          cases inst with
+          | isFalse _ => rfl
+          | isTrue h => exact h.elim
+        rw [hF, Bool.false_or]
+    · have hk2 : ¬ k = k' := fun x => hk x.symm
+      by_cases he : e.1 = k
+      · have : ¬ e.1 = k' := fun x => hk (x.symm.trans he)
+        simp [he, hk, hk2]
+      · simp [he, hk]
+
+theorem dictGet_append_new (d : List (Str × Str)) (k v k' : Str) (hn : d.any (·.1 = k) = false) :
+    dictGet (d ++ [(k, v)]) k' = if k' = k then some v else dictGet d k' := by
+  induction d with
+  | nil =>
+    rw [List.nil_append, dictGet_cons, dictGet_nil]
+    by_cases hk : k' = k
+    · simp [hk]
+    · have : ¬ k = k' := fun x => hk x.symm
+      simp [hk, this]
+  | cons e es ih =>
+    simp only [List.any_cons, Bool.or_eq_false_iff, decide_eq_false_iff_not] at hn
+    rw [List.cons_append, dictGet_cons, ih hn.2, dictGet_cons]
+    by_cases hk : k' = k
+    · subst hk
+      simp [hn.1]
+    · simp [hk]
+
+/-- Python `d[k] = v` followed by `d.get(k')` -/
+theorem dictGet_dictSet (d : List (Str × Str)) (k v k' : Str) :
+    dictGet (dictSet d k v) k' = if k' = k then some v else dictGet d k' := by
+  unfold dictSet
+  by_cases ha : d.any (·.1 = k) = true
+  · rw [if_pos ha, dictGet_map_set, ha]; simp
+  · have ha' : d.any (·.1 = k) = false := Bool.eq_false_iff.mpr ha
+    rw [if_neg ha, dictGet_append_new d k v k' ha']
+
+/-- what one physical line assigns: `(is a ddb.* key, key, value)` -/
+def lineSetting (rawLine : Str) : Option (Bool × Str × Str) :=
+  let line := strip rawLine
+  if line.isEmpty ∨ startsWith line ['#'] then none
+  else if Extracted.vmdk.EXTENT_PREFIXES.any (fun p => startsWith line p.toList) then none
+  else
+    let (setting, _, value) := partition '=' line
+    let setting := strip setting
+    some (startsWith setting "ddb.".toList, setting, stripChars [' ', '"'] value)
+
+/-- the value a line assigns to key `k` of the dictionary `ddb` / `attr` -/
+def lineAssigns (ddb : Bool) (k : Str) (rawLine : Str) : Option Str :=
+  match lineSetting rawLine with
+  | some (b, k', v) => if b = ddb ∧ k' = k then some v else none
+  | none => none
+
+theorem parseStep_dicts (d : Desc) (l : Str) (k : Str) :
+    dictGet (parseStep d l).attr k = (lineAssigns false k l).or (dictGet d.attr k) ∧
+    dictGet (parseStep d l).ddb k = (lineAssigns true k l).or (dictGet d.ddb k) := by
+  unfold parseStep lineAssigns lineSetting
+  simp only
+  split
+  · simp
+  · split
+    · cases parseExtentLine (strip l) <;> simp
+    · cases hd : startsWith (strip (partition '=' (strip l)).1) "ddb.".toList
+      · simp only [dictGet_dictSet, Bool.false_eq_true, if_false]
+        by_cases hk : k = strip (partition '=' (strip l)).1 <;> simp [hk, eq_comm]
+      · simp only [dictGet_dictSet, if_true]
+        by_cases hk : k = strip (partition '=' (strip l)).1 <;> simp [hk, eq_comm]
+
+theorem fold_dicts (lines : List Str) (d : Desc) (k : Str) :
+    dictGet (lines.foldl parseStep d).attr k =
+      ((lines.filterMap (lineAssigns false k)).getLast?).or (dictGet d.attr k) ∧
+    dictGet (lines.foldl parseStep d).ddb k =
+      ((lines.filterMap (lineAssigns true k)).getLast?).or (dictGet d.ddb k) := by
+  induction lines generalizing d with
+  | nil => simp
+  | cons l ls ih =>
+    obtain ⟨h1, h2⟩ := parseStep_dicts d l k
+    obtain ⟨i1, i2⟩ := ih (parseStep d l)
+    rw [List.foldl_cons, i1, i2, h1, h2]
+    constructor
+    · cases ha : lineAssigns false k l with
+      | none => simp [ha]
+      | some v =>
+        simp only [List.filterMap_cons, ha]
+        cases hg : (List.filterMap (lineAssigns false k) ls).getLast? with
+        | none =>
+          have : List.filterMap (lineAssigns false k) ls = [] := List.getLast?_eq_none_iff.mp hg
+          simp [this]
+        | some w =>
+          have hne : List.filterMap (lineAssigns false k) ls ≠ [] := by
+            intro e; rw [e] at hg; cases hg
+          obtain ⟨x, xs, hx⟩ := List.exists_cons_of_ne_nil hne
+          rw [hx] at hg ⊢
+          simp [List.getLast?_cons_cons, hg]
+    · cases ha : lineAssigns true k l with
+      | none => simp [ha]
+      | some v =>
+        simp only [List.filterMap_cons, ha]
+        cases hg : (List.filterMap (lineAssigns true k) ls).getLast? with
+        | none =>
+          have : List.filterMap (lineAssigns true k) ls = [] := List.getLast?_eq_none_iff.mp hg
+          simp [this]
+        | some w =>
+          have hne : List.filterMap (lineAssigns true k) ls ≠ [] := by
+            intro e; rw [e] at hg; cases hg
+          obtain ⟨x, xs, hx⟩ := List.exists_cons_of_ne_nil hne
+          rw [hx] at hg ⊢
+          simp [List.getLast?_cons_cons, hg]
+
+end Hv.VmdkDesc
